@@ -507,8 +507,10 @@ pub fn lex_menus() -> Vec<(&'static str, Vec<Row>, Vec<char>)> {
                 row("a,b", 2, 1, 15, "\"a,b\",quoted"),
                 row("b", 1, 2, 22, "b"),
                 row("a ", 2, 2, 5, "a-trailing-space"),
+                // quoted in the file because of the comma; the backslash is an ordinary character
+                row("\\,", 1, 1, 8, "backslash-comma"),
             ],
-            vec![','],
+            vec![',', '\\'],
         ),
         (
             // surfaces that begin with characters some text reader gives a meaning to
@@ -750,6 +752,48 @@ pub fn long_sentences(lengths: &[usize]) -> Vec<String> {
         if n > 34 {
             out.push(format!("{} {}", "a".repeat(32), "a".repeat(n - 33)));
             out.push(format!("{}c{}", "ab".repeat(16), "a".repeat(n - 33)));
+        }
+    }
+    out
+}
+
+/// Degenerate connectors: a single connection id on one or both sides (the only id is the
+/// BOS/EOS id 0) with non-zero costs, so that every connection still counts.
+pub fn u_single(_tier: Tier) -> Vec<Universe> {
+    let mut out = vec![];
+    let (cats, ranges) = lex_char_def();
+    for (nr, nl, conn) in [
+        (1usize, 1usize, vec![5]),
+        (1, 1, vec![-7]),
+        (1, 3, vec![4, -6, 9]),
+        (3, 1, vec![3, -8, 11]),
+    ] {
+        for (xname, rows, extra) in lex_menus().into_iter().filter(|m| m.0 == "nested" || m.0 == "homographs") {
+            let sys: Vec<Row> = rows.iter().map(|r| Row { left: r.left % nl as u16, right: r.right % nr as u16, ..r.clone() }).collect();
+            let mut alphabet = vec!['a', 'b', 'c', ' '];
+            alphabet.extend(extra);
+            out.push(Universe {
+                name: format!("single-id/{nr}x{nl}/{:?}/{xname}", conn),
+                dict: RefDict {
+                    cats: cats.clone(),
+                    ranges: ranges.clone(),
+                    unk: lex_unk_rows(nr, nl),
+                    sys,
+                    user: Some(vec![Row { surface: "bc".into(), left: 0, right: 0, cost: 7, feature: "user-bc".into() }]),
+                    nr,
+                    nl,
+                    conn: conn.clone(),
+                    kind: ConnKind::Matrix,
+                    bigram: None,
+                    astral_takes_nul: false,
+                    default_line_pos: 0,
+                },
+                alphabet,
+                opts: vec![Opts { ignore_space: false, mgl: 0 }, Opts { ignore_space: true, mgl: 1 }],
+                k1: false,
+                mapping: None,
+                extra_sentences: vec![],
+            });
         }
     }
     out
